@@ -4,7 +4,7 @@
      quo_exact_units   : QuoExact of v by 10^6 has exactly v units
      reparsed_units / printable : printing and re-parsing keeps the unit count *)
 From Coq Require Import List ZArith NArith Bool Lia Strings.Byte Strings.String.
-Require Import Regen.Base.Bytes Regen.Dec.Dec Regen.Dec.DecLemmas Regen.Dec.DecIface Regen.Ledger.Amount.
+Require Import Regen.Base.Bytes Regen.Base.BigIntScan Regen.Dec.Dec Regen.Dec.DecLemmas Regen.Dec.DecIface Regen.Dec.DecProps Regen.Ledger.Amount.
 Import ListNotations.
 Local Open Scope Z_scope.
 
@@ -128,19 +128,6 @@ Qed.
 (* MsgTake.Amount: sdk.Int string -> Dec                               *)
 (* ------------------------------------------------------------------ *)
 
-Definition parse_sdk_int' (s : bytes) : option Z :=
-  let '(neg, body) := match s with
-                      | c :: r => if Byte.eqb c "-"%byte then (true, r)
-                                  else if Byte.eqb c "+"%byte then (false, r) else (false, s)
-                      | [] => (false, s) end in
-  match body with
-  | [] => None
-  | _ => if forallb is_digit body then
-           let v := dec_digits_val body in
-           if Z.log2 v <? 256 then Some (if neg then - v else v) else None
-         else None
-  end.
-
 Lemma finish_inv neg C xs a : finish neg C xs = Ok a -> a = mkDec neg C (zsum xs).
 Proof.
   unfold finish, bind, round0. intros H.
@@ -168,29 +155,28 @@ Proof.
   apply finish_inv in H. exact H.
 Qed.
 
-(* the string is the one parse_sdk_int' accepted with value v > 0 *)
-Lemma sdk_int_parse' s v a : parse_sdk_int' s = Some v -> 0 < v -> parse s = Ok a -> a = mkDec false v 0.
+(* The handler reads the string once, as an sdk.Int (math/big base-0 syntax, [sdk_int_from_string]), and derives
+   the decimal from the integer's own decimal rendering. *)
+Lemma sdk_int_bound s v : sdk_int_from_string s = Some v -> 0 < v -> v < 10 ^ 100.
 Proof.
-  unfold parse_sdk_int'. intros Hs Hv Hp.
-  destruct s as [|c r]; [discriminate|].
-  destruct (Byte.eqb c "-"%byte) eqn:Em.
-  { destruct r as [|f rest]; [discriminate|].
-    destruct (forallb is_digit (f :: rest)) eqn:Ed; [|discriminate].
-    destruct (Z.log2 _ <? 256); [|discriminate]. inversion Hs; subst v.
-    pose proof (dec_digits_val_nonneg _ Ed). lia. }
-  destruct (Byte.eqb c "+"%byte) eqn:Ep.
-  - apply byte_eqb_eq in Ep. subst c.
-    destruct r as [|f rest]; [discriminate|].
-    destruct (forallb is_digit (f :: rest)) eqn:Ed; [|discriminate].
-    destruct (Z.log2 _ <? 256); [|discriminate]. inversion Hs; subst v.
-    cbn [forallb] in Ed. apply andb_true_iff in Ed. destruct Ed as [Hf Hr].
-    rewrite parse_plus in Hp by (try assumption; apply digits_plain; assumption).
-    apply digits_parse_finite in Hp; assumption.
-  - destruct (forallb is_digit (c :: r)) eqn:Ed; [|discriminate].
-    destruct (Z.log2 _ <? 256); [|discriminate]. inversion Hs; subst v.
-    cbn [forallb] in Ed. apply andb_true_iff in Ed. destruct Ed as [Hf Hr].
-    pose proof (parse_plain false c r Hf (digits_plain r Hr)) as Hpp. cbn [app] in Hpp.
-    rewrite Hpp in Hp. apply digits_parse_finite in Hp; assumption.
+  unfold sdk_int_from_string. intros H Hv.
+  destruct (big_int_set_string0 s) as [w|]; [|discriminate].
+  destruct (Z.log2 (Z.abs w) <? 256) eqn:El; [|discriminate]. apply Z.ltb_lt in El.
+  inversion H; subst w. rewrite Z.abs_eq in El by lia.
+  apply Z.log2_lt_pow2 in El; [|exact Hv].
+  assert (2 ^ 256 < 10 ^ 100) by (vm_compute; reflexivity). lia.
+Qed.
+
+Lemma sdk_int_reparse v a : 0 < v -> v < 10 ^ 100 ->
+  parse (to_string (mkDec false v 0)) = Ok a -> a = mkDec false v 0.
+Proof.
+  intros Hv Hb Hp.
+  assert (Hwf : dwf (mkDec false v 0)) by (unfold dwf; cbn [dcoef]; lia).
+  assert (Hok : reparse_ok (mkDec false v 0)).
+  { unfold reparse_ok. cbn [dexp dcoef]. change (0 <=? 0) with true. cbv iota.
+    assert (Hn : num_digits v <= 100) by (apply num_digits_le; [split; [lia|exact Hb]|clear; lia]).
+    pose proof (num_digits_ge1 v) as Hge. unfold min_exponent, max_exponent. lia. }
+  rewrite (parse_to_string_gen _ Hwf Hok) in Hp. inversion Hp. reflexivity.
 Qed.
 
 (* ------------------------------------------------------------------ *)
@@ -323,16 +309,3 @@ Proof.
   rewrite num_digits_mul_pow10 by lia. lia.
 Qed.
 
-Lemma sdk_int_bound s v : parse_sdk_int' s = Some v -> 0 < v -> v < 10 ^ 100.
-Proof.
-  unfold parse_sdk_int'. intros H Hv.
-  destruct (match s with nil => _ | c :: r => _ end) as [neg body].
-  destruct body as [|f rest]; [discriminate|].
-  destruct (forallb is_digit (f :: rest)) eqn:Ed; [|discriminate].
-  destruct (Z.log2 _ <? 256) eqn:El; [|discriminate]. apply Z.ltb_lt in El.
-  pose proof (dec_digits_val_nonneg _ Ed) as Hw0.
-  set (w := dec_digits_val (f :: rest)) in *. clearbody w.
-  assert (Hw : v = w) by (destruct neg; inversion H; lia). subst w.
-  apply Z.log2_lt_pow2 in El; [|exact Hv].
-  assert (2 ^ 256 < 10 ^ 100) by (vm_compute; reflexivity). lia.
-Qed.
